@@ -30,7 +30,7 @@ def _single_cases(draw, tier):
     big = tier == "thorough"
     # the documented ``precision`` keyword (decimal places kept when knot vectors are normalised); default 18
     precision = draw(st.sampled_from([None, None, None, None, None, 3, 4, 8]))
-    d = draw(gen.spline(max_p=7 if big else 4, max_extra=8 if big else 4, dims=None,
+    d = draw(gen.spline(ranges=("far",), max_p=7 if big else 4, max_extra=8 if big else 4, dims=None,
                         unclamped="maybe", affine_range="maybe", normalize="maybe",
                         vol_max_p=3, vol_max_extra=3 if big else 2, micro=precision is None, long=True))
     if precision is not None:
@@ -39,9 +39,9 @@ def _single_cases(draw, tier):
         # n-D shape (4 coordinates)
         d["P"] = [p + [p[0] * 0.5] * (4 - len(p)) for p in d["P"]]
         d["dim"] = 4
-    e_ = draw(st.sampled_from([0, 0, 0, 0, 0, -12, -12, -30]))
+    e_ = draw(st.sampled_from([0, 0, 0, 0, 0, -12, -12, -30, 24]))
     if e_:
-        # a model in small units: coordinates are multiples of 2^-15 (2^-33) instead of 1/8
+        # a model in small (or large) units: coordinates are multiples of 2^-15 (2^-33, 2^21) instead of 1/8
         d["P"] = [[c * 2.0 ** e_ for c in q] for q in d["P"]]
         d["fine_coordinates"] = True
     pdim = len(d["degree"])
